@@ -8,7 +8,7 @@ rmdir $W
 git -C /repo worktree add -q --detach $W HEAD || exit 2
 cd $W
 export CARGO_NET_OFFLINE=true
-DEMO=$(python3 -c "import json,sys; print(json.load(open('$D/meta.json'))['demo_cmd'])" | sed -E "s#cd /tmp/seed[2345]?/C[0-9]+ *(&&|;)##; s#/tmp/seed[2345]?/C[0-9]+#$W#g")
+DEMO=$(python3 -c "import json,sys; print(json.load(open('$D/meta.json'))['demo_cmd'])" | sed -E "s#cd /tmp/seed[2345K]?/C[0-9]+ *(&&|;)##; s#/tmp/seed[2345K]?/C[0-9]+#$W#g")
 res=""
 git apply "$D/demo.diff" || { echo "demo.diff does not apply" > $D/verified.txt; cd /; git -C /repo worktree remove --force $W; exit 1; }
 if bash -c "$DEMO" > $W/.log1 2>&1; then res="$res (i) demo passes on pinned tree: OK;"; else res="$res (i) FAIL(demo fails on pinned tree);"; fi
